@@ -303,7 +303,7 @@ set_option linter.unusedSimpArgs false
 example : eval toyOps 10 0
       (.assign "x" (.list [it (.assign "x" (.num F64.one)), it (.ident "x")])) root0
     = (.err .alreadyDefined, { root0 with env := [[("x", .num F64.one)]] }) := by
-  simp +decide [eval, evalItems, it, root0, envGet, lookupAL, envInsert, insertAL, setNameIfLambda]
+  simp +decide [eval, evalItems, it, root0, envGet, lookupAL, envInsert, insertAL, setNameIfLambda, createdSince]
 
 /-- hypotheses of `rebind_through_rhs_is_refused` -/
 example : Assignable "x" ∧ alreadyDefined 0 root0.env "x" = false ∧
@@ -311,14 +311,14 @@ example : Assignable "x" ∧ alreadyDefined 0 root0.env "x" = false ∧
       = (.ok (.list [.num F64.one, .num F64.one]), { root0 with env := [[("x", .num F64.one)]] }) ∧
     alreadyDefined 0 [[("x", Value.num F64.one)]] "x" = true := by
   refine ⟨by decide, by decide, ?_, by decide⟩
-  simp +decide [eval, evalItems, it, root0, envGet, lookupAL, envInsert, insertAL, setNameIfLambda,
+  simp +decide [eval, evalItems, it, root0, envGet, lookupAL, envInsert, insertAL, setNameIfLambda, createdSince,
     flattenSpreads]
 
 /-- a session with a failing statement in the middle: `x = 1; x = 2 (refused); y = x` -/
 example : (runStmts toyOps 10 root0
       [.assign "x" (.num F64.one), .assign "x" (.num F64.zero), .assign "y" (.ident "x")]).2.env
     = [[("x", .num F64.one), ("y", .num F64.one)]] := by
-  simp +decide [runStmts, eval, root0, envGet, lookupAL, envInsert, insertAL, setNameIfLambda,
+  simp +decide [runStmts, eval, root0, envGet, lookupAL, envInsert, insertAL, setNameIfLambda, createdSince,
     envContains]
 
 /-- hypothesis of `rebind_is_refused` (top level: bound in an outer frame; in a call: only the
@@ -339,14 +339,14 @@ example : eval toyOps 12 0
       { root0 with env := [[("x", .num F64.one)]] }
     = (.ok (.num F64.zero), { root0 with env := [[("x", .num F64.one)]] }) := by
   simp +decide [eval, evalDo, evalDoStmt, evalItems, it, root0, envGet, lookupAL, envInsert, insertAL,
-    setNameIfLambda, envContains, flattenSpreads]
+    setNameIfLambda, createdSince, envContains, flattenSpreads]
 
 /-- a call whose parameter shadows `x` and whose body assigns `y`: nothing leaks -/
 example : callFn toyOps 12 (.lambda 1 [.req "x"] (.assign "y" (.ident "x")) []) .null [.num F64.zero] 0
       { root0 with env := [[("x", .num F64.one)]] }
     = (.ok (.num F64.zero), { root0 with env := [[("x", .num F64.one)]] }) := by
   simp +decide [callFn, eval, checkArity, lambdaArity, Gen.Arity.canAccept, MAX_DEPTH, nameOf, bindParams,
-    bindParams.go, root0, envGet, lookupAL, envInsert, insertAL, setNameIfLambda, envContains]
+    bindParams.go, root0, envGet, lookupAL, envInsert, insertAL, setNameIfLambda, createdSince, envContains]
 
 /-- inside a call a plain assignment may shadow an outer name in the call's own frame (only that
     frame is looked at): body `[t, t = a, t]` with the caller binding t ↦ 1 gives [1, a, a];
@@ -356,7 +356,7 @@ example : callFn toyOps 12 (.lambda 1 [.req "a"]
       { root0 with env := [[("t", .num F64.one)]] }
     = (.ok (.list [.num F64.one, .num F64.zero, .num F64.zero]), { root0 with env := [[("t", .num F64.one)]] }) := by
   simp +decide [callFn, eval, evalItems, it, checkArity, lambdaArity, Gen.Arity.canAccept, MAX_DEPTH, nameOf,
-    bindParams, bindParams.go, root0, envGet, lookupAL, envInsert, insertAL, setNameIfLambda, envContains,
+    bindParams, bindParams.go, root0, envGet, lookupAL, envInsert, insertAL, setNameIfLambda, createdSince, envContains,
     alreadyDefined, flattenSpreads]
 
 /-- a failing statement that had already bound something: `[a = 1, nope]` fails on `nope`,
@@ -364,11 +364,11 @@ example : callFn toyOps 12 (.lambda 1 [.req "a"]
 example : eval toyOps 10 0 (.list [it (.assign "a" (.num F64.one)), it (.ident "nope")])
       { root0 with env := [[("x", .num F64.one)]] }
     = (.err .unknownIdent, { root0 with env := [[("x", .num F64.one), ("a", .num F64.one)]] }) := by
-  simp +decide [eval, evalItems, it, root0, envGet, lookupAL, envInsert, insertAL, setNameIfLambda,
+  simp +decide [eval, evalItems, it, root0, envGet, lookupAL, envInsert, insertAL, setNameIfLambda, createdSince,
     envContains]
 
 /-- the evaluator alone does accept `not` as a name (the grammar never lets it through) -/
 example : (eval toyOps 3 0 (.assign "not" (.num F64.one)) root0).1 = .ok (.num F64.one) := by
-  simp +decide [eval, root0, envGet, lookupAL, envInsert, insertAL, setNameIfLambda, envContains]
+  simp +decide [eval, root0, envGet, lookupAL, envInsert, insertAL, setNameIfLambda, createdSince, envContains]
 
 end Blots.C03
